@@ -79,9 +79,9 @@ CHECKS = {
     "C08": dict(cat="other", tech="raises-nothing contract: wp safety obligations (proved) + every design of D run with each strategy",
                 text="Safety obligations (index in bounds, divisor non-zero, undeclared raise unreachable) of the window/unranking functions are proved by pyvc.wp for all inputs; every design of D that the constructors accept is synthesized with IterateSATGen and RandomGen (thorough: CMSGen, UniGen) and must not raise.",
                 note=SYS_NOTE, ref="4.3 C08"),
-    "C10": dict(cat="other", tech="pyvc.wp proofs on the real source for EVERY n and k (assert_k_of_n, _inequality_assertion, _make_same_length, int_to_binary; pop_count and the two's complement helper by contract) + concolic execution with z3 per shape (ids/assignments unbounded, unique extension by Lemma DE) + native SAT spot checks",
+    "C10": dict(cat="other", tech="pyvc.wp proofs on the real source for EVERY n and k (assert_k_of_n, _inequality_assertion, _make_same_length, _convert_to_negative_twos_complement, int_to_binary; pop_count by contract) + concolic execution with z3 per shape (ids/assignments unbounded, unique extension by Lemma DE) + native SAT spot checks",
                 text="For all n and k pyvc.wp proves on the real source that, under the definitional clauses (which enter through callee contracts), the asserted unit clauses hold iff the count stands in the relation to k — for exactly, fewer than and more than; induction lemmas on binary representations are proved on every run. Per (relation, n, k) shape the real encoder is executed with symbolic variable ids and z3 proves, for all ids and all 2^n assignments at once, that the asserted clauses hold iff the count relation holds, against the callee contracts of pop_count/ripple_carry, and that every auxiliary variable is defined exactly once (unique extension). Bounded only in n and k (quick n<=9, thorough n<=16,k<=40); int_to_binary is proved for all k by pyvc.wp; dispatch, request round-trip, ordered pairs of requests over one variable list in one formula, and spot checks on large lists (n around every power of two up to 1024, fully specified inputs) are bounded evaluation on the real code.",
-                note="The for-all-n proofs assume pop_count's and _convert_to_negative_twos_complement's contracts (checked per shape and on large n); existence and uniqueness of the extension (Lemma DE side condition) is per shape (n, k bounded); Lemma DE is a paper lemma; z3/cvc5 and pycryptosat trusted; math.log evaluated concretely per shape.", ref="4.1 C10 / 11.6"),
+                note="The for-all-n proofs assume pop_count's contract for symbolic n and the small builders' contracts (xnor_vars, zero_out, set_to_one, get_n_fresh — checked per shape and on large n); they state the direction 'every assignment satisfying the clauses satisfies the relation'; existence and uniqueness of the extension (Lemma DE side condition) is per shape (n, k bounded); Lemma DE is a paper lemma; z3/cvc5 and pycryptosat trusted; math.log evaluated concretely per shape.", ref="4.1 C10 / 11.6 / 11.8"),
     "C13": dict(cat="other", tech="pyvc.wp proofs (mixed-radix / base-n / falling-factorial unranking: rank equation, ranges, termination) + exhaustive bounded bijection checks against itertools",
                 text="extract_components, compute_jth_combination and compute_jth_inversion_sequence are proved for all inputs (digits in range, rank(result) + (j div N) N == j, loops terminate, no division by zero); construct_permutation is proved to stay in bounds and to return pairwise distinct indices below orig_n (a permutation prefix), n_choose_m_given_m_factorial to compute the falling factorial and its floor quotient; the search-based functions (combinations without replacement, permutation prefixes, permutations with copies and their prefixes, counting functions, shared memo) are enumerated completely for every parameter tuple in a stated bound.",
                 note="Bijection for the three proved functions follows from the rank equation by finite pigeonhole (paper). The other eight functions are bounded (counters<=3, total<=7/8, n<=5/6).", ref="4.1 C13"),
